@@ -4,6 +4,6 @@
 EXTENDS NodeConfMC, VerifEmit
 ASSUME EmitReset
 GenNext == FALSE /\ UNCHANGED vars
-ConfJson == [nodes |-> {[id |-> ToString(n), types |-> pub[FirstConf][n].types] : n \in DOMAIN pub[FirstConf]}]
+ConfJson == [nodes |-> {[id |-> ToString(n), types |-> TypesOf(pub[FirstConf][n])] : n \in DOMAIN pub[FirstConf]}]
 Emit == EmitWhen(obs = NoConf /\ DOMAIN ring = {}, ConfJson)
 =============================================================================
